@@ -249,7 +249,7 @@ class C25(Check):
         os.makedirs(meta)
         tf = os.path.join(meta, "strace.txt")
         res = hist.run_all(["strace", "-f", "-s", "4096", "-o", tf, "-e", "trace=open,openat,openat2", core.WILD, *args],
-                           cwd=w, env=hist.clean_env(), timeout=90)
+                           cwd=w, env=hist.clean_env(), timeout=240)
         if res.timed_out:
             raise Inconclusive("wild (under strace) timed out")
         if res.rc != 0:
